@@ -803,3 +803,27 @@ MUTANTS += [
     parser->error_flags = BINSON_ERROR_NONE;''')],
      'expect': {'C12': None, 'C01': None, 'C02': None, 'C09': None}},
 ]
+
+MUTANTS += [
+    # _process_one: the prefix width computed with a small table-free expression, the length range test split in two
+    {'name': 'silent_process_one_length_forms', 'edits': [(P, '''            type = consumed->bptr[0];
+
+            /* Flag 0x03 will tell if the size is 1, 2, 4 or 8 bytes. */
+            to_consume = 1U << (consumed->bptr[0] & 0x03U);
+            if (!_consume(parser, consumed, to_consume, false)) {''', '''            type = consumed->bptr[0];
+
+            /* Flag 0x03 will tell if the size is 1, 2, 4 or 8 bytes. */
+            to_consume = ((type & 0x03U) == 0U) ? 1U : (((type & 0x03U) == 1U) ? 2U : (((type & 0x03U) == 2U) ? 4U : 8U));
+            if (!_consume(parser, consumed, to_consume, false)) {'''), (P, '''            if (!((0 <= length_value) && (length_value <= INT32_MAX))) {
+                parser->error_flags = BINSON_ERROR_FORMAT;
+                break;
+            }''', '''            if (length_value < 0) {
+                parser->error_flags = BINSON_ERROR_FORMAT;
+                break;
+            }
+            if (length_value > INT32_MAX) {
+                parser->error_flags = BINSON_ERROR_FORMAT;
+                break;
+            }''')],
+     'expect': {'C01': None, 'C02': None, 'C03': None, 'C13': None, 'C16': None, 'C18': None, 'C10': None}},
+]
